@@ -121,6 +121,10 @@ def run():
                 reqs.append({"id": f"{i}v", "src": f"{text} := 1; {text} + 1"})
                 reqs.append({"id": f"{i}p", "src": f"{{{text}: 1}}.{text}"})
                 reqs.append({"id": f"{i}s", "src": f"'{text}"})
+                reqs.append({"id": f"{i}k", "src": f"{{{text}: 1}}.keys(private?: true)"})
+                reqs.append({"id": f"{i}K", "src": f"{{{text}: 1}}.keys"})
+                reqs.append({"id": f"{i}c", "src": f"'{text}({{{text}: 5}})"})
+                reqs.append({"id": f"{i}q", "src": f"'{text}.sym?"})
         out = run_cases(reqs, binary=binary, label=f"C17 {label}")
         total += len(reqs)
         for i, c in enumerate(cases):
@@ -171,7 +175,10 @@ def run():
             elif k == "name" and oc == "name":
                 nontrivial.add(text)
                 ends = {"variable": (out[f"{i}v"]["end"], "val:2"), "property": (out[f"{i}p"]["end"], "val:1"),
-                        "symbol": (out[f"{i}s"]["end"], 'val:"' + text + '"')}
+                        "symbol": (out[f"{i}s"]["end"], 'val:"' + text + '"'),
+                        "listed name": (out[f"{i}k"]["end"], 'val:["' + text + '"]'),
+                        "publicly listed name": (out[f"{i}K"]["end"], "val:[]" if text.startswith("_") else 'val:["' + text + '"]'),
+                        "called symbol": (out[f"{i}c"]["end"], "val:5"), "symbol test": (out[f"{i}q"]["end"], "val:true")}
                 for use, (end, want) in ends.items():
                     if end != want:
                         nc = name_class(c["cs"])
@@ -212,7 +219,7 @@ def run():
     ck.cov["traces_validated_against_impl"] = total
     ck.cov["rule"] = (f"TLC enumerates spellings: digits over small alphabets with `_` up to {consts['MaxDigits']} characters in 4 bases, exponent forms "
                       "e-4..e20, boundary and seeded random spellings around 2^53/2^63/2^64, strings and raw strings of up to "
-                      f"{consts['MaxPieces']} pieces from 16 piece kinds, identifiers up to {consts['MaxName']} characters over {{a,Z,_,1,?,!}} plus 60 "
+                      f"{consts['MaxPieces']} pieces from 19 piece kinds (incl. braces and an interpolation, which makes the literal an embedded string), identifiers up to {consts['MaxName']} characters over {{a,Z,_,1,?,!}} plus 60 "
                       "reserved-word derivatives; floats: boundary list + seeded random decimals with exponents -25..25. non-trivial = distinct "
                       "spellings for which the specification prescribes a value, a rejection or a working name")
     ck.assumptions = ["results are read through the worker's canonical rendering (Go strconv.Quote / shortest float text)",
